@@ -6,25 +6,16 @@ Import ListNotations.
 Local Open Scope Z_scope.
 
 (* ---- association lists ------------------------------------------------------------------- *)
-Lemma nget_notin {A} k (m : list (nat * A)) : ~ In k (map fst m) -> nget k m = None.
+Lemma nget_ndel_same {A} k (m : list (nat * A)) : nget k (ndel k m) = None.
 Proof.
-  induction m as [|[k' v] r IH]; intro H; cbn [nget]; [reflexivity|].
-  destruct (Nat.eqb k k') eqn:E.
-  - apply Nat.eqb_eq in E. subst. exfalso. apply H. now left.
-  - apply IH. intro Hi. apply H. now right.
-Qed.
-Lemma nget_ndel_same {A} k (m : list (nat * A)) : NoDup (map fst m) -> nget k (ndel k m) = None.
-Proof.
-  induction m as [|[k' v] r IH]; intro H; cbn [ndel nget]; [reflexivity|].
-  inversion H as [|? ? Hn Hr]; subst. destruct (Nat.eqb k k') eqn:E.
-  - apply Nat.eqb_eq in E. subst k'. now apply nget_notin.
-  - cbn [nget]. rewrite E. now apply IH.
+  unfold ndel. induction m as [|[k' v] r IH]; cbn [filter nget fst]; [reflexivity|].
+  destruct (Nat.eqb k' k) eqn:E; cbn [negb]; [exact IH|]. cbn [nget]. rewrite Nat.eqb_sym, E. exact IH.
 Qed.
 Lemma nget_ndel_other {A} k k0 (m : list (nat * A)) : k0 <> k -> nget k0 (ndel k m) = nget k0 m.
 Proof.
-  intro H. induction m as [|[k' v] r IH]; cbn [ndel nget]; [reflexivity|].
-  destruct (Nat.eqb k k') eqn:E.
-  - apply Nat.eqb_eq in E. subst k'. destruct (Nat.eqb k0 k) eqn:E2; [apply Nat.eqb_eq in E2; contradiction|reflexivity].
+  intro H. unfold ndel. induction m as [|[k' v] r IH]; cbn [filter nget fst]; [reflexivity|].
+  destruct (Nat.eqb k' k) eqn:E; cbn [negb].
+  - apply Nat.eqb_eq in E. subst k'. destruct (Nat.eqb k0 k) eqn:E2; [apply Nat.eqb_eq in E2; contradiction|exact IH].
   - cbn [nget]. destruct (Nat.eqb k0 k'); [reflexivity|exact IH].
 Qed.
 
